@@ -621,23 +621,24 @@ class BinaryOp(Expr):
 
     @property
     def type(self):
-        if self.left.type == Type.UNKNOWN or \
-           self.right.type == Type.UNKNOWN:
+        # evaluate the operand types once: each of them is computed
+        # recursively, so reading them several times per call makes
+        # the cost exponential in the depth of the expression
+        ltype = self.left.type
+        rtype = self.right.type
+
+        if ltype == Type.UNKNOWN or rtype == Type.UNKNOWN:
             return Type.UNKNOWN
 
         if self.op.is_logical:
-            if not self.left.type.is_numeric or \
-               not self.right.type.is_numeric:
+            if not ltype.is_numeric or not rtype.is_numeric:
                 return Type.UNKNOWN
-            if self.left.type == self.right.type == Type.INTEGER:
+            if ltype == rtype == Type.INTEGER:
                 return Type.INTEGER
             else:
                 return Type.LONG
         if self.op.is_comparison:
             return Type.INTEGER
-
-        ltype = self.left.type
-        rtype = self.right.type
 
         if (ltype == Type.STRING and rtype != Type.STRING) or \
            (rtype == Type.STRING and ltype != Type.STRING):
